@@ -129,7 +129,7 @@ def applyP (ads1 ads2 : List Matchable) : PMod → Read × Read → Info × Info
     let (t2s, m2s, _) ← cutterOpt c2 r1
     let i1 := if first1 then { i1 with original := { i1.original with seq := r1.seq } } else i1
     let i2 := if first2 then { i2 with original := { i2.original with seq := r2.seq } } else i2
-    let useRc := scoreSum m1s + scoreSum m2s > scoreSum m1 + scoreSum m2
+    let useRc := (!m1s.isEmpty || !m2s.isEmpty) && scoreSum m1s + scoreSum m2s > scoreSum m1 + scoreSum m2
     let (o1, o2, n1, n2) := if useRc then (t1s, t2s, m1s, m2s) else (t1, t2, m1, m2)
     let o1 := if useRc && suffix then { o1 with name := o1.name ++ bytesOfStr " rc" } else o1
     let o2 := if useRc && suffix then { o2 with name := o2.name ++ bytesOfStr " rc" } else o2
